@@ -100,6 +100,23 @@ def gen_history(rng, maxlen):
     return {'ops': ops, 'batch': rng.choice([None, 2, 5])}
 
 
+def _tok_clear(t):
+    """specifier tokens whose meaning is fixed by the statement alone: '*', 'id:version', 'id:*', '*:version'"""
+    if t == '*':
+        return True
+    if t.count(':') != 1:
+        return False
+    i, v = t.split(':')
+    return all(x == '*' or (x and not any(c in x for c in '*?[')) for x in (i, v))
+
+
+def _tok_match(t, s):
+    if t == '*':
+        return True
+    (ti, tv), (i, v) = t.split(':'), s.split(':')
+    return ti in ('*', i) and tv in ('*', v)
+
+
 def mask_ili(obs):
     obs = json.loads(json.dumps(obs))
     for o in obs:
@@ -197,6 +214,36 @@ def judge(ctx, sc, im, mo):
             elif oi.get('ok') != om.get('ok'):
                 ctx.disagree(sc, oi, om, f'step[{k}].{op["k"]}.ok')
                 break
+    # "removing a lexicon removes it together with all of its extensions … leaves every other lexicon":
+    # judged on the library's own lexicon listing before / after each effective removal, for the
+    # specifier tokens whose meaning does not depend on the installation order
+    before = []
+    pending = None
+    for op, oi in zip(sc['ops'], im['outs']):
+        if op['k'] == 'obs':
+            now = [o['spec'] for o in oi] if isinstance(oi, list) else None
+            if pending is not None and now is not None:
+                toks = pending.split()
+                if all(_tok_clear(t) for t in toks):
+                    matched = {s for s in before if any(_tok_match(t, s) for t in toks)}
+                    ch = True
+                    while ch:
+                        ch = False
+                        for s in before:
+                            if s in BASE_OF and BASE_OF[s] in matched and s not in matched:
+                                matched.add(s)
+                                ch = True
+                    exp_after = [s for s in before if s not in matched]
+                    if matched and sorted(now) != sorted(exp_after):
+                        ctx.fail('remove(spec)-removes-exactly-the-matched-lexicons-and-their-extensions', sc,
+                                 {'spec': pending, 'before': before, 'after': now, 'expected_after': exp_after})
+            pending = None
+            if now is not None:
+                before = now
+        elif op['k'] == 'remove' and isinstance(oi, dict) and oi.get('ok'):
+            pending = op['spec']
+        else:
+            pending = None
     a = im['audit']
     if a['fk']:
         ctx.fail('no-dangling-reference(foreign_key_check)', sc, {'rows': a['fk'][:5]})
